@@ -87,6 +87,17 @@ class Sym:
         self._memo[key] = r
         return r
 
+    def defs_of(self, l):
+        """Expressions of all whole-local definitions of `l` (regardless of its address being taken)."""
+        d, _ = self._defs()
+        out = []
+        for bi, si, st in d.get(l, []):
+            if si == "term":
+                out.append(self.call_expr(st, bi, 1))
+            elif st["k"] == "assign":
+                out.append(self.rvalue(st["rv"], 1))
+        return out
+
     def call_expr(self, term, bi, depth=0):
         c = term["callee"]
         if "indirect" in c:
